@@ -14,6 +14,7 @@ use super::{
     ProtocolException, TAsyncInputProtocol, TFieldIdentifier, TInputProtocol, TLengthProtocol,
     TListIdentifier, TMapIdentifier, TMessageIdentifier, TMessageType, TOutputProtocol,
     TSetIdentifier, TStructIdentifier, TType, ThriftException, ZERO_COPY_THRESHOLD,
+    checked_container_size,
     error::ProtocolExceptionKind,
     new_protocol_exception,
     rw_ext::{ReadExt, WriteExt, read_exact_to_vec, split_to_checked},
@@ -1181,6 +1182,7 @@ where
     #[inline]
     async fn read_map_begin(&mut self) -> Result<TMapIdentifier, ThriftException> {
         let element_count = self.read_varint_async::<u32>().await? as i32;
+        let element_count = checked_container_size(element_count, None)?;
         if element_count == 0 {
             Ok(TMapIdentifier::new(TType::Stop, TType::Stop, 0))
         } else {
@@ -1188,11 +1190,7 @@ where
             let key_type = tcompact_get_ttype(((type_header & 0xF0) >> 4).try_into()?)?;
             let val_type = tcompact_get_ttype((type_header & 0x0F).try_into()?)?;
 
-            Ok(TMapIdentifier::new(
-                key_type,
-                val_type,
-                element_count as usize,
-            ))
+            Ok(TMapIdentifier::new(key_type, val_type, element_count))
         }
     }
 
@@ -1226,7 +1224,7 @@ where
         } else {
             self.read_varint_async::<u32>().await? as i32
         };
-        Ok((element_type, element_count as usize))
+        Ok((element_type, checked_container_size(element_count, None)?))
     }
 
     #[inline]
@@ -1298,7 +1296,10 @@ impl TCompactInputProtocol<&mut Bytes> {
         } else {
             self.read_varint::<u32>()? as i32
         };
-        Ok((element_type, element_count as usize))
+        Ok((
+            element_type,
+            checked_container_size(element_count, Some(self.trans.len()))?,
+        ))
     }
 }
 
@@ -1720,6 +1721,7 @@ impl TInputProtocol for TCompactInputProtocol<&mut Bytes> {
     // #[inline]
     fn read_map_begin(&mut self) -> Result<TMapIdentifier, ThriftException> {
         let element_count = self.read_varint::<u32>()? as i32;
+        let element_count = checked_container_size(element_count, Some(self.trans.len()))?;
         if element_count == 0 {
             Ok(TMapIdentifier::new(TType::Stop, TType::Stop, 0))
         } else {
@@ -1727,11 +1729,7 @@ impl TInputProtocol for TCompactInputProtocol<&mut Bytes> {
             let key_type = tcompact_get_ttype(((type_header & 0xF0) >> 4).try_into()?)?;
             let val_type = tcompact_get_ttype((type_header & 0x0F).try_into()?)?;
 
-            Ok(TMapIdentifier::new(
-                key_type,
-                val_type,
-                element_count as usize,
-            ))
+            Ok(TMapIdentifier::new(key_type, val_type, element_count))
         }
     }
 
